@@ -170,6 +170,27 @@ func (vc *VC) call(ins ssa.Instruction, c *ssa.CallCommon, v *ssa.Call) {
 			env.vars[names[i]] = a
 		}
 	}
+	// a closure called directly: its captured variables are visible to its contract by name
+	if mc, ok := c.Value.(*ssa.MakeClosure); ok && staticFn != nil {
+		for k, fv := range staticFn.FreeVars {
+			if k >= len(mc.Bindings) {
+				break
+			}
+			bv := mc.Bindings[k]
+			bt := vc.val(bv)
+			ad := vc.addrs[bv]
+			if ad == nil {
+				ad = vc.pointeeAddr(bt.S, bv.Type())
+				ad.space = vc.spaceOf(bv)
+			}
+			el := bv.Type().Underlying().(*types.Pointer).Elem()
+			if isStruct(el) {
+				env.vars[fv.Name()] = Term{S: bt.S, Sort: "Int", T: el, Addr: true, Space: ad.space}
+			} else {
+				env.vars[fv.Name()] = Term{S: vc.loadAddrIn(vc.heap, ad), Sort: vc.sortOf(el), T: el}
+			}
+		}
+	}
 	sk := shortKey(key)
 	if k := strings.LastIndex(sk, "."); k >= 0 {
 		sk = sk[k+1:]
